@@ -6,7 +6,11 @@ package quic
 // wrappers around unexported functions; nothing here changes behaviour).
 
 import (
+	"fmt"
+
 	"github.com/refraction-networking/uquic/internal/ackhandler"
+	"github.com/refraction-networking/uquic/internal/handshake"
+	"github.com/refraction-networking/uquic/internal/monotime"
 	"github.com/refraction-networking/uquic/internal/protocol"
 	"github.com/refraction-networking/uquic/internal/wire"
 )
@@ -114,4 +118,156 @@ func VerifMarshalInitial(fb QUICFrameBuilder, idx int, flightPlanned bool, frame
 	}
 	b, err := p.MarshalInitialPacketPayload(pl, protocol.Version1)
 	return b, p.initialDatagramIdx, err
+}
+
+// ---------------------------------------------------------------- planned flight + loss recovery glue
+
+type verifNullSealer struct{}
+
+func (verifNullSealer) Seal(dst, src []byte, _ protocol.PacketNumber, _ []byte) []byte {
+	dst = append(dst, src...)
+	return append(dst, make([]byte, 16)...)
+}
+func (verifNullSealer) EncryptHeader([]byte, *byte, []byte) {}
+func (verifNullSealer) Overhead() int                      { return 16 }
+
+type verifSealingManager struct{}
+
+func (verifSealingManager) GetInitialSealer() (handshake.LongHeaderSealer, error) {
+	return verifNullSealer{}, nil
+}
+func (verifSealingManager) GetHandshakeSealer() (handshake.LongHeaderSealer, error) {
+	return nil, handshake.ErrKeysNotYetAvailable
+}
+func (verifSealingManager) Get0RTTSealer() (handshake.LongHeaderSealer, error) {
+	return nil, handshake.ErrKeysNotYetAvailable
+}
+func (verifSealingManager) Get1RTTSealer() (handshake.ShortHeaderSealer, error) {
+	return nil, handshake.ErrKeysNotYetAvailable
+}
+
+type verifPNManager struct{ next protocol.PacketNumber }
+
+func (m *verifPNManager) PeekPacketNumber(protocol.EncryptionLevel) (protocol.PacketNumber, protocol.PacketNumberLen) {
+	return m.next, protocol.PacketNumberLen2
+}
+func (m *verifPNManager) PopPacketNumber(protocol.EncryptionLevel) protocol.PacketNumber {
+	pn := m.next
+	m.next++
+	return pn
+}
+
+type verifNoFrames struct{}
+
+func (verifNoFrames) HasData() bool { return false }
+func (verifNoFrames) Append(f []ackhandler.Frame, s []ackhandler.StreamFrame, _ protocol.ByteCount, _ monotime.Time, _ protocol.Version) ([]ackhandler.Frame, []ackhandler.StreamFrame, protocol.ByteCount) {
+	return f, s, 0
+}
+
+type verifNoAcks struct{}
+
+func (verifNoAcks) GetAckFrame(protocol.EncryptionLevel, monotime.Time, bool) *wire.AckFrame {
+	return nil
+}
+
+// VerifFlightPacker is a real uPacketPacker (real packetPacker, real initialCryptoStream with the
+// ClientHello written, real retransmissionQueue) whose environment is reduced to fakes that do
+// nothing: a sealer that does not encrypt, a counting packet number manager, no other frames.
+type VerifFlightPacker struct {
+	up      *uPacketPacker
+	maxSize protocol.ByteCount
+	// the ackhandler.Frames registered for each packed Initial packet, as the packer handed them over
+	sent [][]ackhandler.Frame
+	live []bool // packed and not declared lost yet
+}
+
+func VerifNewFlightPacker(fb QUICFrameBuilder, clientHello []byte, packetSizes []int, maxSize int) *VerifFlightPacker {
+	ini := newInitialCryptoStream(true)
+	ini.DisableScrambling()
+	_, _ = ini.Write(clientHello)
+	destID := protocol.ParseConnectionID([]byte{1, 2, 3, 4, 5, 6, 7, 8})
+	pp := newPacketPacker(protocol.ConnectionID{}, func() protocol.ConnectionID { return destID }, ini, newCryptoStream(),
+		&verifPNManager{next: 1}, newRetransmissionQueue(), verifSealingManager{}, verifNoFrames{}, verifNoAcks{}, nil, protocol.PerspectiveClient)
+	spec := &QUICSpec{InitialPacketSpec: InitialPacketSpec{FrameBuilder: fb}}
+	for _, s := range packetSizes {
+		spec.InitialPacketSpec.InitialPackets = append(spec.InitialPacketSpec.InitialPackets, InitialPacketPlan{PacketSize: s})
+	}
+	return &VerifFlightPacker{up: newUPacketPacker(pp, spec), maxSize: protocol.ByteCount(maxSize)}
+}
+
+// Budgets: MaxFrameBytes per datagram as planInitialFlight will compute them for a cryptoLen byte
+// ClientHello, and the frame budget of a later (retransmission) Initial packet.
+func (f *VerifFlightPacker) Budgets(cryptoLen int) (maxFrameBytes []int, retransmitBudget int) {
+	s := verifNullSealer{}
+	for _, b := range f.up.flightBudgets(cryptoLen, s, f.maxSize, protocol.Version1) {
+		maxFrameBytes = append(maxFrameBytes, b.MaxFrameBytes)
+	}
+	hdrLen := f.up.getLongHeader(protocol.EncryptionInitial, protocol.Version1).GetLength(protocol.Version1)
+	return maxFrameBytes, int(f.maxSize - 16 - hdrLen)
+}
+
+// Pack calls PackCoalescedPacket once. It returns the frame payload of the Initial packet (read back
+// out of the serialized packet) and the CRYPTO frames the packer registered for loss recovery, read
+// AFTER packing (offset, data) in registration order.
+func (f *VerifFlightPacker) Pack() (payload []byte, registered []VerifCF, packed bool, err error) {
+	pkt, err := f.up.PackCoalescedPacket(false, f.maxSize, monotime.Now(), protocol.Version1)
+	if err != nil || pkt == nil {
+		f.sent = append(f.sent, nil) // `Lose` addresses Pack calls
+		f.live = append(f.live, false)
+		return nil, nil, false, err
+	}
+	defer pkt.buffer.Release()
+	if len(pkt.longHdrPackets) != 1 {
+		return nil, nil, false, fmt.Errorf("verif: %d long header packets", len(pkt.longHdrPackets))
+	}
+	data := pkt.buffer.Data
+	hdr, _, _, perr := wire.ParsePacket(data)
+	if perr != nil {
+		return nil, nil, false, perr
+	}
+	ext, perr := hdr.ParseExtended(data)
+	if perr != nil {
+		return nil, nil, false, perr
+	}
+	hdrLen := ext.GetLength(protocol.Version1)
+	end := hdrLen + hdr.Length - protocol.ByteCount(ext.PacketNumberLen) - 16
+	if end < hdrLen || int(end) > len(data) {
+		return nil, nil, false, fmt.Errorf("verif: bad packet length")
+	}
+	payload = append([]byte{}, data[hdrLen:end]...)
+	lp := pkt.longHdrPackets[0]
+	f.sent = append(f.sent, lp.frames)
+	f.live = append(f.live, true)
+	for _, fr := range lp.frames {
+		if cf, ok := fr.Frame.(*wire.CryptoFrame); ok {
+			registered = append(registered, VerifCF{Offset: int64(cf.Offset), Data: append([]byte{}, cf.Data...)})
+		}
+	}
+	return payload, registered, true, nil
+}
+
+// Lose declares the k-th packed packet lost the way the sent packet handler (and a Retry) does: every
+// registered frame is handed to its handler's OnLost.
+func (f *VerifFlightPacker) Lose(k int) bool {
+	if k < 0 || k >= len(f.sent) || !f.live[k] {
+		return false
+	}
+	for _, fr := range f.sent[k] {
+		fr.Handler.OnLost(fr.Frame)
+	}
+	f.live[k] = false
+	return true
+}
+
+// Plan runs planInitialFlight now (PackCoalescedPacket would do it on its first call) and returns the
+// planned frame payloads.
+func (f *VerifFlightPacker) Plan() ([][]byte, error) {
+	if err := f.up.planInitialFlight(verifNullSealer{}, f.maxSize, protocol.Version1); err != nil {
+		return nil, err
+	}
+	out := make([][]byte, len(f.up.flightPayloads))
+	for i, p := range f.up.flightPayloads {
+		out[i] = append([]byte{}, p...)
+	}
+	return out, nil
 }
